@@ -6,6 +6,7 @@ func init() {
 		"the value length limit is asserted for span attributes only; event and link attribute values may be untouched or cut by the same rule",
 		"for links passed with WithLinks whose span context is invalid but which carry attributes or tracestate, and for the relative order of sampler attributes and WithAttributes at start, either documented reading is accepted",
 		"RecordError: position of the synthesized exception.* attributes relative to the caller's attributes is not asserted, only counts, the prefix rule for the caller's attributes and the exception.message value",
+		"End running as the deferred call of a panicking goroutine adds the documented exception event, which is modelled as an ordinary event (event FIFO, per-event attribute cap and dropped count; 2 attributes, 3 with WithStackTrace(true)); whether the panic is continued is not asserted; End inside a deferred closure of a panicking goroutine is an ordinary End",
 		"the caller may pass one attribute slice object to several calls and to spans of two providers: every call is modelled with the key-values the caller built (the library must not alter elements [0:len) of an attribute slice argument; spare capacity is not examined); trace.Link.Attributes slices are never re-used or overwritten by the caller (AddLink keeps the caller's slice on the pinned tree)",
 	))
 }
